@@ -13,8 +13,8 @@ UNITS = [
       cbmc_flags=["--unwind", "7", "--unwinding-assertions", "--object-bits", "10"],
       bound={"quick": "a table object of 3 buckets holding at most 3 nodes in any distribution", "thorough": "3 buckets, at most 4 nodes"}),
     U("remove", "h_remove", canaries=2, functions=["p_hash_table_remove"], cbmc_flags=["--unwind", "9", "--unwinding-assertions", "--object-bits", "10"]),
-] + [U(n, "h_keys_values", replace=[], defines=["LIST_WHICH=%d" % w, "LISTING_STUB"], functions=[f], defines_quick=["L=2"], defines_thorough=["L=4"], timeout=600, timeout_thorough=7200,
-          bound={"quick": "tables with at most 2 entries spread over 3 buckets", "thorough": "at most 4 entries spread over 3 buckets (measured 4-15+ min per unit)"},
+] + [U(n, "h_keys_values", replace=[], defines=["LIST_WHICH=%d" % w, "LISTING_STUB"], functions=[f], defines_quick=["L=2"], defines_thorough=["L=3"], timeout=600, timeout_thorough=3600,
+          bound={"quick": "tables with at most 2 entries spread over 3 buckets", "thorough": "at most 3 entries spread over 3 buckets (4 entries: more than 80 minutes per unit under load)"},
           # per-loop bounds: bucket scan 101 iterations, chain / list loops L
           cbmc_flags=["--unwinding-assertions", "--object-bits", "10", "--unwind", "9", "--unwindset", f + ".1:103"])
        for w, (n, f) in enumerate((("keys", "p_hash_table_keys"), ("values", "p_hash_table_values"), ("lookup_by_value", "p_hash_table_lookup_by_value")))] + [
